@@ -198,6 +198,7 @@ func genC09(repo string) (string, error) {
 	if err != nil {
 		return "", err
 	}
+	c08Normalize(tf)
 	for _, fn := range []string{"toLocked", "CheckExpired", "CheckTimeout"} {
 		if err := o.skeleton(tf, "OpStatusTracker", fn, "skel_trk_"+fn,
 			goast.SkelOpt{Calls: set("toLocked", "setTime", "Since"), Assigns: set("current"), Conds: true}); err != nil {
@@ -214,10 +215,11 @@ func genC09(repo string) (string, error) {
 			return "", err
 		}
 	}
+	c08Normalize(of)
 	for _, fn := range []string{"Check", "ConfVerChanged", "CheckSuccess", "CheckTimeout", "CheckExpired"} {
 		if err := o.skeleton(of, "Operator", fn, "skel_op_"+fn,
 			goast.SkelOpt{Calls: set("IsEnd", "IsFinish", "CheckTimeout", "CheckSuccess", "CheckExpired", "To", "ConfVerChanged", "StoreInt32", "LoadInt32"),
-				Assigns: set("current", "total"), Conds: true}); err != nil {
+				Assigns: set("current", "total", "local1"), Conds: true}); err != nil { // local1 = ConfVerChanged's cursor copy (`current`)
 			return "", err
 		}
 	}
@@ -226,11 +228,12 @@ func genC09(repo string) (string, error) {
 	if err != nil {
 		return "", err
 	}
+	c08Normalize(cf)
 	fd, err := cf.Func("OperatorController", "checkStaleOperator")
 	if err != nil {
 		return "", err
 	}
-	be, err := c09FindCmp(cf, fd, "changes", "ConfVerChanged")
+	be, err := c09FindCmp(cf, fd, "GetConfVer() -", "ConfVerChanged")
 	if err != nil {
 		return "", err
 	}
@@ -238,8 +241,8 @@ func genC09(repo string) (string, error) {
 	if err != nil {
 		return "", err
 	}
-	if !strings.HasPrefix(cf.Src(be.X), "changes") {
-		return "", fmt.Errorf("%s: stale test is not of the form `changes <op> op.ConfVerChanged(region)`: %s", cf.Path, cf.Src(be))
+	if !strings.Contains(cf.Src(be.X), "GetConfVer() -") || !strings.Contains(cf.Src(be.Y), "ConfVerChanged") {
+		return "", fmt.Errorf("%s: stale test is not of the form `<conf_ver difference> <op> op.ConfVerChanged(region)`: %s", cf.Path, cf.Src(be))
 	}
 	fmt.Fprintf(&o.sb, "Definition stale_cmp_gt : Z -> Z -> bool := %s. (* checkStaleOperator: %s *)\n", fn, cf.Src(be))
 	fmt.Fprintf(&o.sb, "Definition stale_cmp_src : string := %s.\n", goast.Q(cf.Src(be)))
@@ -249,7 +252,7 @@ func genC09(repo string) (string, error) {
 		return "", err
 	}
 	for _, fld := range []string{"GetVersion", "GetConfVer"} {
-		be, err := c09FindCmp(cf, fd, "region.GetRegionEpoch()."+fld, "op.RegionEpoch()."+fld)
+		be, err := c09FindCmp(cf, fd, ".GetRegionEpoch()."+fld+"()", ".RegionEpoch()."+fld+"()")
 		if err != nil {
 			return "", err
 		}
@@ -257,7 +260,7 @@ func genC09(repo string) (string, error) {
 		if err != nil {
 			return "", err
 		}
-		if !strings.HasPrefix(cf.Src(be.X), "region.") {
+		if !strings.Contains(cf.Src(be.X), "GetRegion(") || !strings.Contains(cf.Src(be.X), ".GetRegionEpoch()") || strings.Contains(cf.Src(be.Y), "GetRegion(") {
 			return "", fmt.Errorf("%s: epoch test is not of the form `region... <op> op...`: %s", cf.Path, cf.Src(be))
 		}
 		fmt.Fprintf(&o.sb, "Definition epoch_mismatch_%s : Z -> Z -> bool := %s. (* checkAddOperator: %s *)\n", fld, fn, cf.Src(be))
@@ -300,6 +303,7 @@ func genC09(repo string) (string, error) {
 	if err != nil {
 		return "", err
 	}
+	c08Normalize(hf)
 	if err := o.skeleton(hf, "HeartbeatStreams", "SendMsg", "skel_SendMsg",
 		goast.SkelOpt{Calls: set("GetLeader"), Assigns: set("Header", "RegionId", "RegionEpoch", "TargetPeer"), Conds: true}); err != nil {
 		return "", err
